@@ -21,7 +21,7 @@ from .. import tool
 PROP = "C09"
 LEVEL = "exploration"
 RUNS = {"quick": 160, "thorough": 8000}
-TIME_CAP = {"quick": 400, "thorough": 1500}
+TIME_CAP = {"quick": 400, "thorough": 900}
 ARMS = ["raw", "raw_path", "s2352", "mdx", "cue_raw", "cue_2352"]
 SELFCHECK_N = 4
 CHUNK = 1          # runs per worker task (cost-aware: keeps the time cap responsive)
